@@ -240,14 +240,18 @@ def check_query(ctx, prog):
     if sub:
         a = strip(sub[0]['a'][0])
         qv = strip(a['x']) if a.get('k') == 'bin' else a
-        ends = set(w['id'] for w in walk_expr(sub[0]['a'][1]) if w.get('k') == 'var')
+        ends = set(w['id'] for w in walk_expr(sub[0]['a'][1]) if w.get('k') == 'var') | set(w['id'] for w in walk_expr(q.expand(f, sub[0]['a'][1])) if w.get('k') == 'var')
         bounded = set()
+        qv_x = pe(strip(q.expand(f, qv)))
         for c, pol, kind in g.of(e):
             if kind == 'if' and pol is True:
-                for part in conj(c):
+                # the guard is read both as written and through single-assignment locals (hasQuery = q > 0 && q < end)
+                for part in conj(c) + conj(q.expand(f, c, bools_only=True)) + conj(q.expand(f, c)):
                     part = strip(part)
-                    if part.get('k') == 'bin' and part.get('op') in ('<', '<=') and strip(part['x']).get('id') == qv.get('id') and strip(part['y']).get('k') == 'var':
-                        bounded.add(strip(part['y'])['id'])
+                    if part.get('k') == 'bin' and part.get('op') in ('<', '<=') and strip(part['y']).get('k') == 'var':
+                        lhs = strip(part['x'])
+                        if (lhs.get('k') == 'var' and lhs.get('id') == qv.get('id')) or pe(lhs) == qv_x:
+                            bounded.add(strip(part['y'])['id'])
         ok = bool(bounded & ends)
         why = "the query is cut as substring(%s, %s) without a guard that the '?' lies before the end used: for a '#' before the '?' the length is negative" % (pe(sub[0]['a'][0]), pe(sub[0]['a'][1]))
     ctx.evaluations += 1
